@@ -184,7 +184,7 @@ def r13_1_bytes_forms(ctx):
     ms = ctx.model.find_class("MethodSignature", "pyteal.ast.methodsig")
     init, teal = ms.methods["__init__"], ms.methods["__teal__"]
     ctx.analysed(init.fq, teal.fq)
-    for name, legal in (("add(uint64,uint64)uint64", True), ("f()void", True), ("caf\u00e9(uint64)void", True), ("f(uint64,\tbool)void", True), ("g(string) void", True), ("", False), (5, False), ('a"b()void', False), ("f()void\nint 0\nreturn", False), ("f()void\\", False), ("f()void\r", False)):
+    for name, legal in (("add(uint64,uint64)uint64", True), ("f()void", True), ("caf\u00e9(uint64)void", True), ("f(uint64,\tbool)void", True), ("g(string) void", True), ("lookup(((uint64,bool),string))void", True), ("f((uint64,(bool,(byte,string))[])[3])(uint64,(bool,bool))", True), ("noargs()(uint64,uint64)", True), ("", False), (5, False), ('a"b()void', False), ("f()void\nint 0\nreturn", False), ("f()void\\", False), ("f()void\r", False)):
         selfs = Sym("self:MethodSignature")
         try:
             run_function(init.node, {"self": selfs, "methodName": name}, oracle, init.fq, permissive=True, resolver=lambda nm: helpers.get(nm))
